@@ -333,6 +333,50 @@ theorem restart_same_id_kept_example :
       = [[(0, 1, true)], [(0, 1, true)], [(0, 1, true), (1, 2, true)], [(0, 1, true), (1, 2, true)]] := by
   decide
 
+/-- **Marked for retry while a transmission is in progress** (`pending_while_transmitting`, the crash-point
+part of the property): when `forward` starts to transmit a stored bundle, the stored record is marked
+pending, and it stays so whichever of the per-peer goroutines (`Send`; on failure `ReportFailure`) have
+run so far, in whatever order (`ps` is an arbitrary list of peers, the environment's answers are
+arbitrary). A process that is stopped or dies inside a `Send` finds the bundle pending at its next start
+(`restart_keeps_store`). The driver judges the same on the implementation's record read inside `Send`
+(`MID` lines). -/
+theorem pending_while_transmitting (env : Env) (d : Desc) (b : Bundle) (n : Node) (it : Item)
+    (hg : n.store.get d.key = some it) (hrp : d.cons.rp = false) (ps : List Peer) :
+    ∃ it', (sendAll env (forwardMidDesc env d b n) b ps (forwardMid env d b n)).1.store.get d.key = some it' ∧
+      it'.pending = true ∧ it'.bundle = it.bundle ∧ it'.expires = it.expires :=
+  pending_while_sending env d b n it hg hrp ps
+
+/-- **A peer that appears while another run of the pending-bundles job is busy** (`direct_during_another_run`):
+`checkPendingBundles` is a function of the state it finds. In EVERY well-formed state — in particular one
+in which another `forward` has synced its bundle and some of its per-peer goroutines have run
+(`sendAll … (forwardMid …)`) — a waiting bundle whose destination node is connected is handed to that peer
+(the epidemic gate excepted, as in `direct_when_connected`). The driver judges the same on the
+implementation with one run blocked inside a `Send` (`OVL` lines). -/
+theorem direct_during_another_run (env env' : Env) (d : Desc) (b : Bundle) (n : Node) (w : WF n)
+    (hbk : ∀ b', d.bndl = some b' → b'.key = d.key) (ps : List Peer)
+    (hn : (n.peers.map (·.addr)).Nodup) (k : Key) (it : Item) (c : Cfg) (hc : n.cfg = c) (p : Peer) :
+    let m := (sendAll env (forwardMidDesc env d b n) b ps (forwardMid env d b n)).1
+    m.store.get k = some it → isWaiting c m.now (itemView (k, it)) = true → p ∈ m.peers →
+    p.eid.sameNode it.bundle.dst = true →
+    (m.cfg.algo ≠ .epidemic ∨ ∃ q ∈ m.peers, it.rt.sentE.contains q.eid = false) →
+    sentIn (checkPending env' m).2 p.addr it.bundle.tag = true := by
+  intro m hg hw hp hs hgate
+  -- the state in the middle of the other run is well-formed and has the same peers and configuration
+  have hD : ∀ b', ({ d with cons := { d.cons with fp := true, dp := false } } : Desc).bndl = some b' →
+      b'.key = ({ d with cons := { d.cons with fp := true, dp := false } } : Desc).key := hbk
+  have k1 := sync_kstep { d with cons := { d.cons with fp := true, dp := false } } n hD
+  have k2 := (selectSenders_rt env { d with cons := { d.cons with fp := true, dp := false } } b
+    (sync { d with cons := { d.cons with fp := true, dp := false } } n)).kstep
+  have k3 := (sendAll_rt env (forwardMidDesc env d b n) b ps (forwardMid env d b n)).kstep
+  have wm : WF m := k3.wf (k2.wf (k1.wf w))
+  have hpe : m.peers = n.peers := by
+    have e3 := k3.only.env.peers
+    have e2 := k2.only.env.peers
+    have e1 := k1.only.env.peers
+    exact e3.trans (e2.trans e1)
+  have hce : m.cfg = n.cfg := (k3.only.env.cfg).trans ((k2.only.env.cfg).trans k1.only.env.cfg)
+  exact checkPending_direct env' m wm (by rw [hpe]; exact hn) k it hg c (hce.trans hc) hw p hp hs hgate
+
 /-- **Concurrent failures** (`concurrent_failures_both_recorded`): with the mutex, for every number of
 failing transmissions and EVERY schedule of the failure reports' micro-steps: once all reports are done,
 no failed peer is left in the sent list and nothing else was removed. -/
@@ -388,6 +432,19 @@ example :
     n.cfg.holdFix = true ∧ n.cfg.seqFirst = true ∧ n.cfg.skipStored = true ∧ hasEndpoint n.cfg ex_b1.src = true ∧
     hopExceeded ex_b1 = false ∧ lifetimeExceeded n.now ex_b1 = false ∧ ageExpired ex_b1 = false ∧
     hasEndpoint n.cfg ex_b1.dst = false ∧ (assignSeq ex_b1 n).1.seq = 1 ∧ n.idk = [] ∧ n.store.length = 1 := by
+  decide
+
+/-- `pending_while_transmitting` is not vacuous: a waiting bundle, a peer appears, and in the middle of the
+retry (after one failing `Send`) the record is pending. -/
+example :
+    let c : Cfg := { self := 1, algo := .epidemic, mule := false, sensorNodes := [], sprayL := 3, bcast := ⟨999, 0⟩,
+                     seqFirst := true, skipStored := true, expiryNow := true, dtlsrFail := true, holdFix := true }
+    let env : Env := { sendOk := fun _ _ _ => false, prefer := fun _ _ => [], cand := fun _ _ => false }
+    let n := run env (init c 1000) [.submit ex_b1, .peerUp ⟨1, ⟨2, 0⟩⟩]
+    let d := newDesc n ex_b1.key
+    (n.store.get d.key).isSome = true ∧ d.cons.rp = false ∧
+    ((sendAll env (forwardMidDesc env d ex_b1 n) ex_b1 [⟨1, ⟨2, 0⟩⟩] (forwardMid env d ex_b1 n)).1.store.get d.key).map
+      (fun i => (i.pending, i.rt.sentE)) = some (true, []) := by
   decide
 
 example : lifetimeOk 2000 1000 ex_b2 = true := by decide
